@@ -662,7 +662,13 @@ def mpf_expint(n, x, prec, rnd=round_fast, gamma=False):
             while m and t:
                 s += t
                 m += 1
-                t = (m*r*t) >> wp
+                u = (m*r*t) >> wp
+                if m > 0 and abs(u) >= abs(t):
+                    # the terms of the divergent series grow again before
+                    # having reached the tolerance (the size estimate
+                    # above was too optimistic)
+                    raise NotImplementedError
+                t = u
             v = mpf_exp(negx, wp)
             if gamma:
                 # ~ exp(-x) * x^(n-1) * (1 + ...)
